@@ -14,6 +14,7 @@ import sys
 from vlib import core, fsfault, histgen, treesnap
 
 ID = "C10"
+READY = True
 LEVEL = "fault_enumeration"
 RULE = ("random nested ChangeSets over a 5-entry tree (edit/create/move/remove, dependent chains, "
         "composites that fail naturally); every fs-operation index and every task-handle notification "
